@@ -357,7 +357,7 @@ Fixpoint run_ops (fuel : nat) (st : rst) (ts : list str) (acc : list str) : list
                 | Some k =>
                     let e := r_env st in
                     run_ops fuel' (set_e st {| e_acts := e_acts e; e_disk := e_disk e; e_fault := e_fault e;
-                                               e_fx := {| fx_del := N.testbit k 0; fx_list := N.testbit k 1; fx_leave := N.testbit k 2 |};
+                                               e_fx := {| fx_del := N.testbit k 0; fx_list := N.testbit k 1; fx_leave := N.testbit k 2; fx_land := N.testbit k 3 |};
                                                e_m := e_m e |}) r1 acc
                 | None => bad
                 end
